@@ -27,11 +27,13 @@ def num_jobs(tier):
     for name, ct, sg, bits, nd in TYPES:
         tmax = (1 << (bits - 1)) if sg else (1 << bits) - 1     # largest magnitude
         for ch, pre in (("char", ""), ("uint8_t", "u")):
-            if tier == "quick" and ch == "uint8_t" and name not in ("u32", "s16"):
-                continue
             classes = list(range(1, nd + 1))
             if tier == "quick" and nd > 5:
                 classes = [1, 2, 6, 7, 10, nd] if nd > 10 else [1, 2, 5, nd]
+            if tier == "quick" and ch == "uint8_t" and name not in ("u32", "s16"):
+                # the uint8_t* spellings are separate functions: at least the widest digit class of every type
+                # (seeded change C14-ustr2s64-int32, a copy/paste slip in one of them, was missed without it)
+                classes = [nd]
             for k in sorted(set(classes)):
                 caps = list(range(0, k + 4)) if tier == "thorough" else [0, k, k + 1, k + 2]
                 if ch == "uint8_t":
